@@ -209,6 +209,27 @@ def gen_cases(rng, tier):
         mc["query"] = rng.choice(["sample", "value"])
         mc["T_guess"] = ocpgen.rnd(rng, 0.4, 3.0, 3)
         cases.append(mc)
+    # scenario family (appended last so that every earlier case keeps its draw): a parametric start time or horizon on a
+    # grid with variables of its own; the parameter changes after a transcription, the grid's own start values must
+    # follow as they would in a fresh OCP of the final specification (seeded change C13_K)
+    loc_profile = dict(PROFILE, grids=["uniform_loc", "geometric_loc", "free", "uniform_loc"], t0_kinds=["param", "param", "num"],
+                       T_kinds=["num", "param", "num"])
+    for i in range(24 if tier == "quick" else 300):
+        spec = ocpgen.gen_stage(rng, loc_profile)
+        hp = [p_ for p_ in spec["params"] if p_.get("role") == "horizon"]
+        if not hp:
+            continue
+        spec["constraints"] = [ocpgen.gen_constraint(rng, spec, 1, grids=["control"], allow_offsets=False)]
+        spec["objective"] = ocpgen.gen_objective(rng, spec, 1, allow=["at_tf", "sum", "integral"])
+        spec["solver_options"] = {"ipopt.max_iter": 1, "ipopt.print_level": 0, "print_time": False,
+                                  "ipopt.hessian_approximation": "limited-memory"}
+        ops = [{"op": "sample"}]
+        for _ in range(rng.randint(1, 3)):
+            pp_ = rng.choice(hp)
+            val = ocpgen.rnd(rng, -2.0, 2.0, 3) if pp_["name"] == "p_t0" else ocpgen.rnd(rng, 0.3, 3.0, 3)
+            ops += [{"op": "set_value", "name": pp_["name"], "value": [[val]], "inplace": rng.random() < 0.7},
+                    {"op": rng.choice(["sample", "value", "sample"])}]
+        cases.append({"spec": spec, "ops": ops, "seed": rng.getrandbits(32)})
     return cases
 
 
